@@ -74,7 +74,7 @@ class Kernel:
         return mapping
 
     def run(self, harness_re='^VHarness', maxpaths=200000, maxseconds=600, maxdecisions=4000, timeout_ms=20000, workers=None):
-        workers = workers or min(16, os.cpu_count() or 4)
+        workers = workers or min(12, os.cpu_count() or 4)
         mapping = self._materialise()
         sym_map = {k: v for k, v in mapping.items() if not k.endswith('_test.go')}
         ov = os.path.join(self.work, 'overlay.json')
